@@ -20,10 +20,32 @@ def declared_bounded(prop):
 
 
 def run_bounded(report, alpha, functions=(), scale=1.0, **kw):
-    res = B.run_harness(report.prop, alpha, report.tier, report.seed, scale=scale, **kw)
-    B.bounded_obligations(report, report.prop, declared_bounded(report.prop), res, functions=functions)
+    """alpha: one alphabet name or a list (first one gets the random/template/corpus tail as well)."""
+    alphas = [alpha] if isinstance(alpha, str) or alpha is None else list(alpha)
+    merged = None
+    for i, a in enumerate(alphas):
+        if i == 0:
+            res = B.run_harness(report.prop, a, report.tier, report.seed, scale=scale, **kw)
+        else:
+            res = B.run_harness(report.prop, a, report.tier, report.seed, scale=0.0, no_files=True,
+                                **{k: v for k, v in kw.items() if k not in ('no_files',)})
+        if merged is None:
+            merged = res
+            merged['scope']['alphabets'] = {a: res['scope'].get('atoms')}
+        else:
+            merged['evaluations'] += res['evaluations']
+            merged['distinct_nontrivial'] = max(merged['distinct_nontrivial'], res['distinct_nontrivial'])  # lower bound
+            merged['wall_s'] += res['wall_s']
+            merged['scope']['alphabets'][a] = res['scope'].get('atoms')
+            merged['scope']['exhaustive_programs'] += res['scope']['exhaustive_programs']
+            seen = {(f['ob'], f['sig']) for f in merged['failures']}
+            for f in res['failures']:
+                if (f['ob'], f['sig']) not in seen:
+                    merged['failures'].append(f)
+    merged['rule'] = merged['rule'].replace('of the %s alphabet' % alphas[0], 'of each of the alphabets %s' % alphas)
+    B.bounded_obligations(report, report.prop, declared_bounded(report.prop), merged, functions=functions)
     report.assume(ASSUME_BOUNDED)
-    return res
+    return merged
 
 
 def _verify_one(key):
